@@ -228,6 +228,7 @@ class Report:
         self.inconclusive = []
         self.parts = {}
         self._known = None
+        shutil.rmtree(os.path.join(REPLAYS, pid), ignore_errors=True)   # replays of earlier runs of this check
 
     # -- known findings -------------------------------------------------------------
     def known(self):
@@ -242,10 +243,11 @@ class Report:
         for f in self.known():
             if f.get('status') != 'known' or self.pid not in f.get('properties', []):
                 continue
-            if f.get('class') != cls:
+            fc = f.get('class')
+            if cls not in (fc if isinstance(fc, list) else [fc]):
                 continue
             comp = f.get('component')
-            if comp is None or comp in components:
+            if comp is None or any(c in components for c in (comp if isinstance(comp, list) else [comp])):
                 return f
         return None
 
@@ -254,6 +256,8 @@ class Report:
         if f is not None:
             self.known_hits.setdefault(f['id'], [0, f])[0] += 1
             return False
+        if replay_path is None and len(self.violations) >= 40:
+            replay_path = self.violations[-1][2]   # beyond 40 violations no further replay files are written
         if replay_path is None:
             os.makedirs(os.path.join(REPLAYS, self.pid), exist_ok=True)
             h = hashlib.sha1(json.dumps([cls, desc, replay_obj], sort_keys=True, default=str).encode()).hexdigest()[:10]
